@@ -44,6 +44,9 @@ Record case := mkCase {
   c_obs : list obs;
   c_obs2 : list obs;
   c_draws : list draw;
+  c_fixed : option (list obs * list nat);   (* family fixed: backing array of responses, prefix
+                                               lengths of the generators run one after another;
+                                               c_obs = first generator, c_obs2 = last one *)
 }.
 
 (** ** equality of observations (doubles by their IEEE class/sign/mantissa/exponent) *)
@@ -330,6 +333,33 @@ Fixpoint sync_from (client : bool) (vs : list value) (seen : list erec) (l : lis
 Definition sync_checkable (client : bool) (vs : list value) : bool :=
   negb client || forallb (fun v => match vk v with KSync n => n <=? 0 | _ => true end) vs.
 
+(** client family with configured syncs of positive value (sent as sync=true like
+    the injected one): a sound, weaker form.  T true syncs seen, U = total repeat
+    of the configured true syncs.  Never more than U+1; once T > U the injected
+    one is among them, so before the LAST true sync every value has been seen. *)
+Definition user_true_syncs (vs : list value) : list value :=
+  filter (fun v => match vk v with KSync n => 0 <? n | _ => false end) vs.
+Definition is_true_sync (e : erec) : bool :=
+  match e_id e, e_val e with None, VSync 1 => true | _, _ => false end.
+Fixpoint before_last_true (seen : list erec) (best : option (list erec)) (l : list erec)
+  : option (list erec) :=
+  match l with
+  | [] => best
+  | e :: l' => before_last_true (seen ++ [e]) (if is_true_sync e then Some seen else best) l'
+  end.
+Definition weak_sync_ok (vs : list value) (l : list erec) (at_done : bool) : bool :=
+  let ut := user_true_syncs vs in
+  if forallb (fun v => 0 <? vrep v) ut then
+    let U := fold_left Z.add (map vrep ut) 0 in
+    let T := Z.of_nat (List.length (filter is_true_sync l)) in
+    (T <=? U + 1) && (negb at_done || (T =? U + 1)) &&
+    (if U <? T then match before_last_true [] None l with
+                    | Some seen => all_seen true vs seen
+                    | None => true
+                    end
+     else true)
+  else true.
+
 Definition has_injected (client : bool) (vs : list value) (l : list erec) : bool :=
   existsb (is_injected_sync client (List.length vs)) l.
 
@@ -399,9 +429,45 @@ Definition ts_ovf_possible (vs : list value) (l : list erec) : bool :=
   existsb (fun v => max_i64 <? (match newest_ts (vid v) (rev l) with Some t => t | None => vts v end)
                                + 2 * vdmax v) vs.
 
+(** ** family fixed (FixedQueue through Client.Run) *)
+
+Definition with_end (steps : nat) (l : list obs) : list obs :=
+  if (List.length l <? steps)%nat then l ++ [OEnd EDone] else l.
+
+Definition fixed_model (c : case) (arr : list obs) (ks : list nat) : list (list obs) :=
+  map (with_end (c_steps c)) (fixed_scenario arr ks (c_nosync c) (OSync true) (c_steps c)).
+
+(** specification: strict delivery of the configured responses, then the sync *)
+Definition fixed_spec (c : case) (arr : list obs) (k : nat) : list obs :=
+  with_end (c_steps c) (firstn (c_steps c) (firstn k arr ++ if c_nosync c then [] else [OSync true])).
+
+(** KF class 3 (tag 13): between the two compared generators another one was
+    built from a shorter prefix of the same backing array (so its sync was
+    appended into the array), and the only difference is that sync at its index *)
+Definition class_shared (c : case) (arr : list obs) (ks : list nat) : bool :=
+  negb (c_nosync c) &&
+  match ks with
+  | k0 :: rest =>
+      existsb (fun k => (k <? k0)%nat &&
+                 list_eqb obs_eqb (c_obs2 c)
+                   (with_end (c_steps c) (firstn (c_steps c)
+                      (firstn k0 (set_at k (OSync true) arr) ++ [OSync true])))) (removelast rest)
+  | [] => false
+  end.
+
+Definition check_fixed (c : case) (arr : list obs) (ks : list nat) : list (nat * N) :=
+  let m := fixed_model c arr ks in
+  (if list_eqb obs_eqb (c_obs c) (hd [] m) && list_eqb obs_eqb (c_obs2 c) (last m [])
+   then [] else [(0%nat, 1%N)]) ++
+  (if list_eqb obs_eqb (c_obs c) (fixed_spec c arr (hd 0%nat ks)) then [] else [(3%nat, 4%N)]) ++
+  (if list_eqb obs_eqb (c_obs c) (c_obs2 c) then []
+   else [(6%nat, if class_shared c arr ks then 13%N else 7%N)]) ++
+  (match end_of (c_obs c) with EPanic => [(7%nat, 8%N)] | _ => [] end).
+
 (** ** verdict for one case: list of (clause/step index, tag) *)
 
 Definition check_case (c : case) : list (nat * N) :=
+  match c_fixed c with Some (arr, ks) => check_fixed c arr ks | None =>
   let vs := c_vals c in
   let cl := c_client c in
   let l := erecs (c_obs c) in
@@ -420,7 +486,10 @@ Definition check_case (c : case) : list (nat * N) :=
    then [] else [(2%nat, ktag 3%N)]) ++
   (if range_from vs [] l then [] else [(3%nat, 4%N)]) ++
   (if steps_from vs [] l then [] else [(4%nat, ktag 5%N)]) ++
-  (if c_nosync c || negb (sync_checkable cl vs) then []
+  (if c_nosync c then []
+   else if negb (sync_checkable cl vs) then
+     (if weak_sync_ok vs l (match e with EDone => negb err_ok | _ => false end)
+      then [] else [(5%nat, ktag 6%N)])
    else if sync_from cl vs [] l &&
            (Nat.leb (List.length (filter (is_injected_sync cl (List.length vs)) l)) 1) &&
            (match e with
@@ -437,7 +506,8 @@ Definition check_case (c : case) : list (nat * N) :=
           only occur once the patches for KF-C20-1/2 are in) *)
        if err_ok then [] else [(8%nat, 9%N)]
    | _ => []
-   end).
+   end)
+  end.
 
 Fixpoint check_all_from (i : nat) (cs : list case) : list (nat * nat * N) :=
   match cs with
